@@ -699,36 +699,12 @@ pub fn run(ctx: &mut Ctx) {
     // filtered in place or into a new set, derived from a record. The property is about the set as it is (what
     // iter() hands out); which route produced it must not matter.
     {
-        use crate::model::Kind;
+        use super::setroutes::{self, Op};
         use hpo::annotations::AnnotationId;
         TWIN.with(|t| *t.borrow_mut() = None);
-        let mut f4 = Facts::default();
-        f4.version = (2024, 2, 29);
-        f4.terms.push(Facts::term(1, "All"));
-        f4.terms.push(Facts::term(118, "Phenotypic abnormality"));
-        f4.terms.push(Facts::term(12823, "Clinical modifier"));
-        f4.edges.push((118, 1));
-        f4.edges.push((12823, 1));
-        // pool: two nested phenotype terms, a third one, an obsolete term with a replacement, one without, a modifier
-        let pool: [u32; 6] = [200, 210, 300, 400, 410, 500];
-        for (id, parent) in [(200u32, 118u32), (210, 200), (300, 118), (500, 12823)] {
-            f4.terms.push(Facts::term(id, &format!("T{id}")));
-            f4.edges.push((id, parent));
-        }
-        let mut o1 = Facts::term(400, "obsolete T400");
-        o1.obsolete = true;
-        o1.replacement = Some(300);
-        f4.terms.push(o1);
-        let mut o2 = Facts::term(410, "obsolete T410");
-        o2.obsolete = true;
-        f4.terms.push(o2);
-        f4.anns.push(Facts::ann(Kind::Gene, 7, "G7", Some(210)));
-        f4.anns.push(Facts::ann(Kind::Gene, 7, "G7", Some(500)));
-        f4.anns.push(Facts::ann(Kind::Omim, 8, "D8", Some(200)));
-        f4.anns.push(Facts::ann(Kind::Omim, 8, "D8", Some(300)));
-        f4.anns.push(Facts::ann(Kind::Orpha, 9, "O9", Some(300)));
+        let f4 = setroutes::facts();
         let depth = if thorough { 3 } else { 2 };
-        ctx.space("sets/construction-routes", &format!("decoded (v3) ontology: phenotype terms 200 > 210, 300, obsolete 400 (replaced by 300), obsolete 410, modifier 500; start = HpoSet::new over each of the 64 subsets of the pool, or Gene/OmimDisease/OrphaDisease::to_hpo_set; then every sequence of <= {depth} operations from {{extend by one pool term (6), remove_modifier, remove_obsolete, replace_obsolete, without_modifier, without_obsolete, with_replaced_obsolete, child_nodes}}; after every operation the set is compared (3 combiners, asymmetric by-id similarity) as A against a fixed set, as B, and with itself: the value must be the documented combination over the terms iter() hands out, and the similarity must be asked for exactly those pairs"));
+        ctx.space("sets/construction-routes", &format!("{}; every sequence of <= {depth} operations; after every operation the set is compared (3 combiners, asymmetric by-id similarity) as A against a fixed set, as B, and with itself: the value must be the documented combination over the terms iter() hands out, and the similarity must be asked for exactly those pairs", setroutes::DESCRIPTION));
         match drive::from_bytes(&crate::encode::encode(&f4, &crate::encode::EncOpts::v(3))) {
             Ok(Ok(ont4)) => {
                 #[derive(Clone)]
@@ -745,44 +721,7 @@ pub fn run(ctx: &mut Ctx) {
                         by_id(a.id().as_u32(), b.id().as_u32())
                     }
                 }
-                #[derive(Clone, Copy, Debug)]
-                enum Op {
-                    Extend(u32),
-                    RemoveModifier,
-                    RemoveObsolete,
-                    ReplaceObsolete,
-                    WithoutModifier,
-                    WithoutObsolete,
-                    WithReplacedObsolete,
-                    ChildNodes,
-                }
-                let mut alphabet: Vec<Op> = pool.iter().map(|p| Op::Extend(*p)).collect();
-                alphabet.extend([Op::RemoveModifier, Op::RemoveObsolete, Op::ReplaceObsolete, Op::WithoutModifier, Op::WithoutObsolete, Op::WithReplacedObsolete, Op::ChildNodes]);
-                fn apply<'a>(ont4: &'a Ontology, s: HpoSet<'a>, op: Op) -> HpoSet<'a> {
-                    let mut s = s;
-                    match op {
-                        Op::Extend(x) => {
-                            s.extend(ont4.hpo(x));
-                            s
-                        }
-                        Op::RemoveModifier => {
-                            s.remove_modifier();
-                            s
-                        }
-                        Op::RemoveObsolete => {
-                            s.remove_obsolete();
-                            s
-                        }
-                        Op::ReplaceObsolete => {
-                            s.replace_obsolete();
-                            s
-                        }
-                        Op::WithoutModifier => s.without_modifier(),
-                        Op::WithoutObsolete => s.without_obsolete(),
-                        Op::WithReplacedObsolete => s.with_replaced_obsolete(),
-                        Op::ChildNodes => s.child_nodes(),
-                    }
-                }
+                let alphabet: Vec<Op> = setroutes::alphabet();
                 let fixed_ids = [210u32, 400, 500];
                 // one comparison of `a` with `b`: the documented combination over what the two sets iterate
                 let compare = |a: &HpoSet, b: &HpoSet| -> V {
@@ -812,37 +751,14 @@ pub fn run(ctx: &mut Ctx) {
                     }
                     None
                 };
-                // starts: 64 subsets through HpoSet::new, then the three record routes
-                let n_starts = 64 + 3;
-                for start in 0..n_starts {
+                for start in 0..setroutes::N_STARTS {
                     if !ctx.take() {
                         continue;
                     }
-                    let start_name = if start < 64 { format!("HpoSet::new({:?})", pool.iter().enumerate().filter(|(k, _)| start >> k & 1 == 1).map(|(_, p)| *p).collect::<Vec<_>>()) } else { ["Gene 7 to_hpo_set", "OmimDisease 8 to_hpo_set", "OrphaDisease 9 to_hpo_set"][start - 64].to_string() };
-                    let make = || -> Option<HpoSet> {
-                        use hpo::annotations::Disease;
-                        Some(match start {
-                            64 => ont4.gene(&7u32.into())?.to_hpo_set(&ont4),
-                            65 => ont4.omim_disease(&8u32.into())?.to_hpo_set(&ont4),
-                            66 => ont4.orpha_disease(&9u32.into())?.to_hpo_set(&ont4),
-                            _ => set(&ont4, &pool.iter().enumerate().filter(|(k, _)| start >> k & 1 == 1).map(|(_, p)| *p).collect::<Vec<_>>()),
-                        })
-                    };
-                    // all operation sequences up to the depth, every prefix checked (depth-first, rebuilt from the start)
-                    let mut seqs: Vec<Vec<usize>> = vec![vec![]];
-                    let mut frontier: Vec<Vec<usize>> = vec![vec![]];
-                    for _ in 0..depth {
-                        let mut next = vec![];
-                        for s in &frontier {
-                            for k in 0..alphabet.len() {
-                                let mut t = s.clone();
-                                t.push(k);
-                                next.push(t);
-                            }
-                        }
-                        seqs.extend(next.iter().cloned());
-                        frontier = next;
-                    }
+                    let start_name = setroutes::start_name(start);
+                    let make = || setroutes::start(&ont4, start);
+                    // all operation sequences up to the depth, every one rebuilt from the start set
+                    let seqs = setroutes::sequences(alphabet.len(), depth);
                     let mut found: V = None;
                     let mut panicked: Option<String> = None;
                     let mut n = 0u64;
@@ -851,7 +767,7 @@ pub fn run(ctx: &mut Ctx) {
                         let res = guard(|| -> Result<V, ()> {
                             let Some(mut a) = make() else { return Err(()) };
                             for k in seq {
-                                a = apply(&ont4, a, alphabet[*k]);
+                                a = setroutes::apply(&ont4, a, alphabet[*k]);
                             }
                             let fixed = set(&ont4, &fixed_ids);
                             if let Some(v) = compare(&a, &fixed) {
